@@ -195,6 +195,28 @@ def check_used(pp, ledger, layout_label, layout, b, full_units, memo):
                 got, outcome = _ask_used(recipe, sub, tf, unit, dest_arg)
                 case = {'layout': layout_label, 'query': ['used', sname, dlabel, tf, unit]}
                 feat = f"layout={lclass},dest={dkind}"
+                if full_units and tf == 'all' and dkind == 'default':
+                    # arguments left out: the unit defaults to the configured display unit of moles (activity units for an
+                    # enzyme), the destinations to all plates - the answer is the one with the arguments spelled out
+                    du = 'U' if sub.is_enzyme() else pp.config.moles_display_unit
+                    for how, call in (('no-unit', lambda: recipe.get_substance_used(sub, tf)),
+                                      ('no-unit-kw', lambda: recipe.get_substance_used(substance=sub, timeframe=tf, destinations='plates')),
+                                      ('no-timeframe', lambda: recipe.get_substance_used(sub, unit=du))):
+                        q += 1
+                        try:
+                            got2, outcome2 = call(), 'value'
+                        except ValueError:
+                            got2, outcome2 = None, 'ValueError'
+                        except Exception as e:  # noqa
+                            got2, outcome2 = None, type(e).__name__
+                        want2 = _ask_used(recipe, sub, tf, du, 'plates')
+                        if (got2, outcome2) != want2:
+                            vs.append((f"get_substance_used | default-arguments | form={how}",
+                                       f"program [{program_text}]: get_substance_used({sname}) with arguments left out ({how}) = "
+                                       f"{got2 if outcome2 == 'value' else outcome2!r}, with unit={du!r}, timeframe='all', "
+                                       f"destinations='plates' spelled out it is {want2[0] if want2[1] == 'value' else want2[1]!r}",
+                                       dict(case, form=how), want2[0] if want2[1] == 'value' else want2[1],
+                                       got2 if outcome2 == 'value' else outcome2))
                 if full_units and tf == 'all' and dkind == 'explicit':
                     # the destinations are declared as an Iterable: every form of the same collection gets the same answer
                     for form, arg in (('tuple', tuple(dest_arg)), ('generator', (x for x in dest_arg)),
